@@ -477,7 +477,11 @@ class Task:
         self.old = st.snapshot()
         self.old_locals = dict(st.locals)
         for g, t in c.ghost_entry.items():
-            st.globals[g] = coerce(self.spec(st, t, env, self_cls=self.receiver), self.ctx.globals[g])
+            gv = self.spec(st, t, env, self_cls=self.receiver)
+            if g.startswith("self."):
+                self.write_field(st, self_v, g[5:], gv)
+            else:
+                st.globals[g] = coerce(gv, self.ctx.globals[g])
         # vacuity: the assumed pre-state must be satisfiable
         self.pre_sat = self._check_sat(st.pc)
         outs = self.exec_block(self.fn.body, st)
@@ -1207,6 +1211,8 @@ class Task:
                 return [(st, VFunc(m, obj), None)]
             if attr == "__dict__":
                 return [(st, VDictOf(obj), None)]
+            if attr == "__class__":
+                return [(st, VOpaque(f"type({cls})"), None)]
             cv = self.class_const(cls, attr)
             if cv is not None:
                 return [(st, cv, None)]
@@ -1270,20 +1276,20 @@ class Task:
         return res
 
     def ex_BoolOp(self, node, st):
-        """short-circuit: fork only when a later operand is impure; otherwise a guarded pure translation"""
+        """`a and b` / `a or b` with value semantics and short-circuit evaluation: operands with side effects are only
+        evaluated on the paths that reach them (fork); pure operands are translated under a guard (for their safety
+        obligations) without forking."""
         is_and = isinstance(node.op, ast.And)
 
-        def go(k, s, acc):
-            # acc: z3 Bool "all previous operands truthy" (and) / "all falsy" (or); value semantics: only truth needed
-            # when used as a condition; as a value we support Bool-valued operands only.
+        def go(k, s, acc, vals):
+            # acc: z3 Bool "evaluation reaches operand k"; vals: [(truth, value)] of the operands evaluated so far
             if k == len(node.values):
-                return [(s, acc, None)]
-            out = []
-            pure = _is_pure(node.values[k])
+                return [(s, vals, None)]
             if z3.is_false(z3.simplify(acc)):
-                return [(s, acc, None)]
-            if pure:
-                s.guards.append(acc_guard(acc))
+                return [(s, vals, None)]
+            out = []
+            if _is_pure(node.values[k]):
+                s.guards.append(acc)
                 try:
                     rs = self.ev(node.values[k], s)
                 finally:
@@ -1293,13 +1299,10 @@ class Task:
                         out.append((s2, None, e))
                         continue
                     t = truth(v)
-                    nacc = z3.And(acc, t) if is_and else z3.And(acc, z3.Not(t))
-                    out += go(k + 1, s2, nacc)
+                    out += go(k + 1, s2, z3.And(acc, t if is_and else z3.Not(t)), vals + [(t, v)])
             else:
-                g = acc_guard(acc)
-                g = z3.simplify(g)
-                # operand k is only evaluated when the guard holds
-                if not z3.is_false(g) and self.feasible(s, g):
+                g = z3.simplify(acc)
+                if self.feasible(s, g):
                     t_st = s.fork()
                     t_st.assume(g)
                     for s2, v, e in self.ev(node.values[k], t_st):
@@ -1307,23 +1310,28 @@ class Task:
                             out.append((s2, None, e))
                             continue
                         t = truth(v)
-                        out += go(k + 1, s2, t if is_and else z3.Not(t))
+                        out += go(k + 1, s2, t if is_and else z3.Not(t), vals + [(t, v)])
                 ng = z3.simplify(z3.Not(g))
                 if not z3.is_false(ng) and self.feasible(s, ng):
                     f_st = s.fork()
                     f_st.assume(ng)
-                    out.append((f_st, z3.BoolVal(False), None))
+                    out.append((f_st, vals, None))
             return out
 
-        def acc_guard(acc):
-            return acc
-
         res = []
-        for s2, acc, e in go(0, st, z3.BoolVal(True)):
+        for s2, vals, e in go(0, st, z3.BoolVal(True), []):
             if e is not None:
                 res.append((s2, None, e))
-            else:
-                res.append((s2, vbool(acc if is_and else z3.Not(acc)), None))
+                continue
+            # result: the first operand that decides, else the last one evaluated
+            t_last, val = vals[-1]
+            for t, v in reversed(vals[:-1]):
+                decides = z3.Not(t) if is_and else t
+                if all(isinstance(x, V) and x.sort == BOOL for x in (v, val)):
+                    val = vbool(z3.If(decides, v.z, val.z))
+                else:
+                    val = v_ite(decides, v, val) if isinstance(v, V) and isinstance(val, V) else _pyval_or(decides, v, val)
+            res.append((s2, val, None))
         return res
 
     def ex_Compare(self, node, st):
@@ -1865,6 +1873,15 @@ def assigned_names(node):
         if isinstance(n, ast.Name) and isinstance(n.ctx, ast.Store):
             out.add(n.id)
     return out
+
+
+def _pyval_or(c, a, b):
+    c = z3.simplify(c)
+    if z3.is_true(c):
+        return a
+    if z3.is_false(c):
+        return b
+    raise Unsupported("and/or over python-level values with an undecided condition")
 
 
 def _as_store(t):
